@@ -10,6 +10,57 @@ import (
 	"verifharness/internal/corr"
 )
 
+// Disagreements (model ≠ implementation) are recorded but never stop the run: the direct oracles must get the
+// chance to turn a broken correspondence into a concrete failing input. At most `perStreamCap` are recorded
+// per stream and `totalCap` in all (the shared issue cap is 20; violations must not be crowded out); once a
+// stream reached its cap its model comparisons are skipped (they became meaningless), the oracles stay active.
+const (
+	perStreamCap = 4
+	totalCap     = 10
+)
+
+var (
+	disagreePerStream = map[string]int{}
+	disagreeTotal     int
+)
+
+func resetCorrState() {
+	disagreePerStream = map[string]int{}
+	disagreeTotal = 0
+}
+
+func streamOpen(stream string) bool {
+	return disagreePerStream[stream] < perStreamCap && disagreeTotal < totalCap
+}
+
+// modelCheck asks the model (unless the stream is closed) and records a disagreement; returns false on one.
+func modelCheck(r *corr.Run, prop, stream string, ops func() []string, op, impl string) bool {
+	if !streamOpen(stream) {
+		r.Count("corr.skipped." + stream)
+		return true
+	}
+	model := r.Ask(op)
+	if model == impl {
+		return true
+	}
+	disagreePerStream[stream]++
+	disagreeTotal++
+	r.Count("corr.disagree." + stream)
+	r.Disagree(prop, stream, "model and implementation differ", ops(), model, impl)
+	return false
+}
+
+// violations counts the failing inputs found for the focus property (all, when no focus is set).
+func violations(r *corr.Run) int {
+	n := 0
+	for _, is := range r.Res.Issues {
+		if is.Kind == "violation" && (focusProp == "" || is.Property == focusProp) {
+			n++
+		}
+	}
+	return n
+}
+
 // interner maps the real id strings of one operation to 1..k preserving their STRING order (children are
 // sorted by the real id string in Tree.attach, so the model must see the same order). 0 = "no such change".
 type interner struct {
@@ -91,10 +142,7 @@ func (w *world) corrReplica(rep *replica, what string) {
 			parts = append(parts, in.change(w.info[id]))
 		}
 		op := strings.Join(parts, " ")
-		model := w.r.Ask(op)
-		if !w.r.Check("C06", "tree.iter", append(w.ops(), what, op), model, "ok "+in.list(it)) {
-			w.failed = true
-		}
+		modelCheck(w.r, "C06", "tree.iter", func() []string { return append(w.ops(), what, op) }, op, "ok "+in.list(it))
 	}
 	sids := storedIds(w.stored(rep))
 	if len(sids) != len(mem) || sids[0] != it[0] {
@@ -104,10 +152,7 @@ func (w *world) corrReplica(rep *replica, what string) {
 			parts = append(parts, in.change(w.info[id]))
 		}
 		op := strings.Join(parts, " ")
-		model := w.r.Ask(op)
-		if !w.r.Check("C06", "tree.stored", append(w.ops(), what, op), model, "ok "+in.list(sids)) {
-			w.failed = true
-		}
+		modelCheck(w.r, "C06", "tree.stored", func() []string { return append(w.ops(), what, op) }, op, "ok "+in.list(sids))
 	}
 }
 
@@ -124,10 +169,8 @@ func (w *world) corrLoader(resp *replica, theirHeads, theirPath []string, limit 
 			impl = fmt.Sprintf("ok %d", in.n(real))
 			cs = real
 		}
-		model := w.r.Ask(op)
-		if !w.r.Check("C09", "loader.common", append(w.ops(), what, op), model, impl) {
-			w.failed = true
-			return
+		if !modelCheck(w.r, "C09", "loader.common", func() []string { return append(w.ops(), what, op) }, op, impl) {
+			return // the cache the model would get starts at another snapshot: `respond` cannot be compared
 		}
 		if err != nil {
 			return
@@ -164,10 +207,7 @@ func (w *world) corrLoader(resp *replica, theirHeads, theirPath []string, limit 
 		}
 		impl = "ok " + strings.Join(bs, " ")
 	}
-	model := w.r.Ask(op)
-	if !w.r.Check("C09", "loader.respond", append(w.ops(), what, op), model, impl) {
-		w.failed = true
-	}
+	modelCheck(w.r, "C09", "loader.respond", func() []string { return append(w.ops(), what, op) }, op, impl)
 	w.r.Count("corr.loader.respond")
 }
 
@@ -189,8 +229,9 @@ func mkChange(n *tnode) *objecttree.Change {
 	return &objecttree.Change{Id: n.id, PreviousIds: append([]string{}, n.prevs...), SnapshotId: n.snap, IsSnapshot: n.isSnap}
 }
 
-func treeLevelCase(r *corr.Run) {
-	// a random DAG over ids drawn from a tiny alphabet (many prefix-related ids)
+// genDag: a random DAG over ids drawn from a tiny alphabet (many prefix-related ids); not necessarily honest.
+// Fans (several concurrent children of one change) and chains are both frequent.
+func genDag(r *corr.Run) ([]*tnode, map[string]*chInfo, *interner) {
 	n := 2 + r.Intn(r.Pick(7, 10))
 	alph := []string{"ab", "abc", "01"}[r.Intn(3)]
 	used := map[string]bool{}
@@ -208,7 +249,7 @@ func treeLevelCase(r *corr.Run) {
 		}
 	}
 	nodes := []*tnode{{id: fresh(), isSnap: true}}
-	byId := map[string]*tnode{nodes[0].id: nodes[0]}
+	fan := ""
 	for i := 1; i < n; i++ {
 		nd := &tnode{id: fresh(), isSnap: r.Chance(25)}
 		np := 1
@@ -217,6 +258,15 @@ func treeLevelCase(r *corr.Run) {
 		}
 		for k := 0; k < np; k++ {
 			p := nodes[r.Intn(len(nodes))].id
+			switch {
+			case k == 0 && fan != "" && r.Chance(45):
+				p = fan // one more sibling under the same parent: >= 3 concurrent children are common
+			case k == 0 && r.Chance(25):
+				p = nodes[len(nodes)-1].id // extend the newest change: chains, branches of depth >= 2
+			}
+			if k == 0 {
+				fan = p
+			}
 			dupl := false
 			for _, q := range nd.prevs {
 				if q == p {
@@ -239,7 +289,6 @@ func treeLevelCase(r *corr.Run) {
 			nd.snap = "zz-absent"
 		}
 		nodes = append(nodes, nd)
-		byId[nd.id] = nd
 	}
 	info := map[string]*chInfo{}
 	for _, nd := range nodes {
@@ -253,6 +302,15 @@ func treeLevelCase(r *corr.Run) {
 	}
 	in := newInterner(append(allIds, "zz-absent"))
 	delete(in.rank, "")
+	return nodes, info, in
+}
+
+func treeLevelCase(r *corr.Run) {
+	nodes, info, in := genDag(r)
+	if r.Chance(35) {
+		treeLevelDeterminism(r, nodes, info)
+		return
+	}
 	tr := &objecttree.Tree{}
 	rootMoved := false
 	var trace []string
@@ -347,11 +405,7 @@ func treeLevelCase(r *corr.Run) {
 			// the real Add returns before updateHeads: heads / last are whatever they were
 			impl = fmt.Sprintf("ok nothing added=- iter=%s heads=- last=%d", in.list(it), lastN)
 		}
-		model := r.Ask(op)
 		r.Count("treelevel.mode." + modeName(mode))
-		if !r.Check("C06", "treelevel.add", trace, model, impl) {
-			return
-		}
 		// direct oracles on the pure tree: Append ⇒ prefix; order ids sorted == iteration
 		if mode == objecttree.Append && !isPrefix(before, it) {
 			r.Violate("C06", "", "treelevel.append.prefix", fmt.Sprintf("Tree.Add reported Append but %s is not a prefix of %s", join(before), join(it)), trace)
@@ -377,6 +431,12 @@ func treeLevelCase(r *corr.Run) {
 					return
 				}
 			}
+		}
+		// model correspondence (after the direct oracles, which never depend on it)
+		traceCopy := append([]string{}, trace...)
+		if !modelCheck(r, "C06", "treelevel.add", func() []string { return traceCopy }, op, impl) {
+			r.Case(strings.Join(trace, ";"), len(nodes) >= 4)
+			return
 		}
 		// reduce now and then
 		if r.Chance(25) && tr.Root() != nil {
@@ -407,15 +467,138 @@ func treeLevelCase(r *corr.Run) {
 			var it2 []string
 			tr.IterateSkip(tr.RootId(), func(c *objecttree.Change) bool { it2 = append(it2, c.Id); return true })
 			rimpl := fmt.Sprintf("ok %d %s", in.n(tr.RootId()), in.list(it2))
-			rmodel := r.Ask(rop)
 			r.Count("treelevel.reduce")
 			if it2[0] != it[0] {
 				r.Count("treelevel.reduce.moved")
 				rootMoved = true
 			}
-			if !r.Check("C06", "treelevel.reduce", trace, rmodel, rimpl) {
+			traceCopy2 := append([]string{}, trace...)
+			if !modelCheck(r, "C06", "treelevel.reduce", func() []string { return traceCopy2 }, rop, rimpl) {
+				r.Case(strings.Join(trace, ";"), len(nodes) >= 4)
 				return
 			}
+		}
+	}
+	r.Case(strings.Join(trace, ";"), len(nodes) >= 4)
+}
+
+// treeLevelDeterminism: the property stated directly on the pure Tree - two trees fed the same change set in
+// different arrival orders / batchings (each followed by a re-send of everything, so that both attach the same
+// set) present the same sequence, respect causality, and carry order ids consistent with the sequence.
+func treeLevelDeterminism(r *corr.Run, nodes []*tnode, info map[string]*chInfo) {
+	build := func(variant int) (*objecttree.Tree, []string, string) {
+		tr := &objecttree.Tree{}
+		var trace []string
+		rest := append([]*tnode{}, nodes[1:]...)
+		switch variant {
+		case 0: // ascending ids, one by one (what the fixed tests of the repo do)
+			sort.Slice(rest, func(i, j int) bool { return rest[i].id < rest[j].id })
+		case 1: // descending ids
+			sort.Slice(rest, func(i, j int) bool { return rest[i].id > rest[j].id })
+		default:
+			r.Rand.Shuffle(len(rest), func(i, j int) { rest[i], rest[j] = rest[j], rest[i] })
+		}
+		batches := [][]*tnode{{nodes[0]}}
+		for len(rest) > 0 {
+			k := 1
+			if variant >= 2 && r.Chance(50) {
+				k = 1 + r.Intn(len(rest))
+			}
+			batches = append(batches, rest[:k])
+			rest = rest[k:]
+		}
+		// re-send everything a few times (in the same style) so that whatever waited for a parent attaches
+		for round := 0; round < len(nodes); round++ {
+			batches = append(batches, nodes[1:])
+		}
+		for _, b := range batches {
+			chs := make([]*objecttree.Change, len(b))
+			ids := make([]string, len(b))
+			for i, nd := range b {
+				chs[i] = mkChange(nd)
+				ids[i] = nd.id + "<" + join(nd.prevs)
+			}
+			var before []string
+			if tr.Root() != nil {
+				tr.IterateSkip(tr.RootId(), func(c *objecttree.Change) bool { before = append(before, c.Id); return true })
+			}
+			panicked := ""
+			var mode objecttree.Mode
+			func() {
+				defer func() {
+					if p := recover(); p != nil {
+						panicked = fmt.Sprint(p)
+					}
+				}()
+				mode, _ = tr.Add(chs...)
+			}()
+			trace = append(trace, fmt.Sprintf("variant%d add %s -> %s", variant, strings.Join(ids, " "), modeName(mode)))
+			if panicked != "" {
+				return tr, trace, "Tree.Add panicked: " + panicked
+			}
+			var it []string
+			tr.IterateSkip(tr.RootId(), func(c *objecttree.Change) bool { it = append(it, c.Id); return true })
+			if mode == objecttree.Append && !isPrefix(before, it) {
+				return tr, trace, fmt.Sprintf("Tree.Add reported Append but %s is not a prefix of %s", join(before), join(it))
+			}
+			if mode == objecttree.Nothing && !eqStr(before, it) {
+				return tr, trace, fmt.Sprintf("Tree.Add reported Nothing but the sequence changed from %s to %s", join(before), join(it))
+			}
+		}
+		return tr, trace, ""
+	}
+	v1, v2 := r.Intn(3), 2
+	t1, tr1, e1 := build(v1)
+	t2, tr2, e2 := build(v2)
+	trace := append(append([]string{}, tr1...), tr2...)
+	if e1 != "" || e2 != "" {
+		r.Violate("C06", "", "treelevel.det.append", e1+e2, trace)
+		return
+	}
+	iterOf := func(t *objecttree.Tree) []string {
+		var it []string
+		t.IterateSkip(t.RootId(), func(c *objecttree.Change) bool { it = append(it, c.Id); return true })
+		return it
+	}
+	it1, it2 := iterOf(t1), iterOf(t2)
+	r.Count("treelevel.det")
+	for _, x := range []struct {
+		t  *objecttree.Tree
+		it []string
+	}{{t1, it1}, {t2, it2}} {
+		pos := map[string]int{}
+		for i, id := range x.it {
+			pos[id] = i
+		}
+		for _, id := range x.it[1:] {
+			for _, p := range info[id].prevs {
+				if pp, ok := pos[p]; !ok || pp >= pos[id] {
+					r.Violate("C06", "", "treelevel.det.causal", fmt.Sprintf("%s presented not after its parent %s in %s", id, p, join(x.it)), trace)
+					return
+				}
+			}
+		}
+		byOrder := append([]string{}, x.it...)
+		sort.SliceStable(byOrder, func(i, j int) bool { return x.t.Get(byOrder[i]).OrderId < x.t.Get(byOrder[j]).OrderId })
+		if !eqStr(byOrder, x.it) {
+			r.Violate("C06", "", "treelevel.det.orderid", fmt.Sprintf("sorting by order id gives %s, the presented sequence is %s", join(byOrder), join(x.it)), trace)
+			return
+		}
+		for i := 1; i < len(x.it); i++ {
+			if x.t.Get(x.it[i-1]).OrderId == x.t.Get(x.it[i]).OrderId {
+				r.Violate("C06", "", "treelevel.det.orderid", fmt.Sprintf("%s and %s carry the same order id", x.it[i-1], x.it[i]), trace)
+				return
+			}
+		}
+	}
+	if eqStr(sortedCopy(it1), sortedCopy(it2)) {
+		r.Count("treelevel.det.equal-sets")
+		if len(it1) >= 4 {
+			r.Count("treelevel.det.equal-sets>=4")
+		}
+		if !eqStr(it1, it2) {
+			r.Violate("C06", "", "treelevel.det.order", fmt.Sprintf("the same change set is presented as %s after one arrival order and as %s after another", join(it1), join(it2)), trace)
+			return
 		}
 	}
 	r.Case(strings.Join(trace, ";"), len(nodes) >= 4)
